@@ -172,7 +172,7 @@ def run_shard(spec, emit):
             break
         version = rng.choice(["3.0", "3.0", "3.1", "2.0"])
         with_security = rng.random() < 0.4
-        doc, desc, method = gen.make_operation_document(rng, version, with_security=with_security)
+        doc, desc, method = gen.make_operation_document(rng, version, composite=(tier == "thorough"), with_security=with_security)
         cfg = {"allow_x00": rng.random() < 0.5, "codec": rng.choice(["utf-8", "utf-8", "ascii", "latin-1"]), "with_security_parameters": rng.random() < 0.5}
         declared, bodies, method, template = declared_parameters(doc, version)
         try:
